@@ -311,7 +311,14 @@ def operations(mesh, tier):
         op("add_midpoints_faces", lambda m: m.add_midpoints_faces(), post="midpoints")
     if ct == "line":
         op("expand(n=3,z=1.5)", lambda m: m.expand(n=3, z=1.5), lambda v, m: v * 1.5)
-        op("fill_between", lambda m: m.fill_between(m.expand(n=1, z=0).translate(0.8, axis=1) if False else _shifted_line(m), n=3), lambda v, m: v * 0.8)
+        pass
+    if ct in ("line", "quad") and mesh.points.shape[1] == mesh.dim and dim in (1, 2):
+        # fill the gap between the mesh (embedded in one more dimension at height 0) and its copy at height 0.8, sheared by 0.3:
+        # default, integer and array-valued relative layer positions (reference interval [-1, 1]): complete, non-uniform and
+        # PARTIAL fills cover (n[-1] - n[0]) / 2 of the gap
+        op("fill_between(n=3)", lambda m: _fill(m, 3), lambda v, m: v * 0.8)
+        for nlab, narr in (("[-1,-.6,.3,1]", [-1.0, -0.6, 0.3, 1.0]), ("[-1,-.5,0]", [-1.0, -0.5, 0.0]), ("[.2,.6,1]", [0.2, 0.6, 1.0]), ("[-.5,0,.5]", [-0.5, 0.0, 0.5])):
+            op(f"fill_between(n={nlab})", lambda m, narr=narr: _fill(m, np.array(narr)), lambda v, m, narr=narr: v * 0.8 * (narr[-1] - narr[0]) / 2)
     if ct == "hexahedron":
         op("triangulate(mode=3)", lambda m: m.triangulate(mode=3))
         op("triangulate(mode=0)", lambda m: m.triangulate(mode=0), post="mode0")
@@ -373,11 +380,13 @@ def _rot90(m):
     return m.rotate(90, axis=2, center=c[: m.dim] if m.dim == 2 else c)
 
 
-def _shifted_line(m):
+def _fill(m, n):
     import felupe as fem
 
-    pts = np.column_stack([m.points[:, 0], np.zeros(m.npoints)]) if m.dim == 1 else m.points.copy()
-    return None
+    bottom = fem.Mesh(np.column_stack([m.points, np.zeros(m.npoints)]), m.cells, m.cell_type)
+    P = np.column_stack([m.points, np.full(m.npoints, 0.8)])
+    P[:, 0] += 0.3
+    return fem.mesh.fill_between(bottom, fem.Mesh(P, m.cells, m.cell_type), n=n)
 
 
 def run(case):
@@ -454,8 +463,6 @@ def run(case):
         nxt = []
         for prog, mesh, expected, base, mtol in frontier:
             for (label, fn, meas, post) in operations(mesh, tier):
-                if label == "fill_between":
-                    continue
                 try:
                     with warnings.catch_warnings():
                         warnings.simplefilter("ignore")
